@@ -244,19 +244,20 @@ def run(ctx):
             "(levels above the size/time cap are counted as not enumerated) and pcfg_omen_prob.txt against (count/N)/that "
             "number; an evaluation = one listed level compared; non-trivial = the level really produces at least one string; "
             "distinct by (tables, level)")
+    if vio:
+        vio = shrink_all(ctx, vio)
     return {"evaluations": dist["levels_compared"], "distinct_nontrivial": nontrivial, "rule": rule, "samples": samples,
             "corr": corr, "violations": vio, "dist": dist}
 
 
-def replay(ctx, data):
-    inp = data.get("input") or {}
-    if "training" not in inp:
-        return []
+def check_one(cfg, level, max_keyspace, budget):
     dist = {k: 0 for k in ["levels_not_enumerated", "cutoff_levels", "levels_compared", "strings_compared",
                            "levels_with_duplicates", "unlisted_levels_with_strings", "guesser_not_loaded", "cutoff_runs"]}
     sc_dir = common.scratch()
-    cfg = inp["training"]
-    T = ol.Trained(cfg, os.path.join(sc_dir, "r"), max_keyspace=inp.get("max_keyspace", 10))
+    try:
+        T = ol.Trained(cfg, os.path.join(sc_dir, "r"), max_keyspace=max_keyspace)
+    except ZeroDivisionError:
+        return []
     if not T.usable:
         return []
     import inspect
@@ -265,10 +266,39 @@ def replay(ctx, data):
     G, _ = T.load_guesser()
     if G is None:
         return []
-    levels = [inp["level"]] if inp.get("level") is not None else sorted(T.keyspace)
-    E = ol.enumerate_sets(G, levels, cap=200000, seconds=20.0, total_seconds=60.0)
+    levels = [level] if level is not None else [L for L in sorted(T.keyspace) if T.keyspace[L] <= budget["cap"] // 2]
+    E = ol.enumerate_sets(G, levels, cap=budget["cap"], seconds=budget["per_level"], total_seconds=budget["per_model"])
     vio = keyspace_oracle(T, {L: E[L] for L in E if not E[L][3]}, {"training": cfg}, dist)
     vio += small_cutoff_oracle(T, E, {"training": cfg}, dist)
-    if inp.get("level") is not None:
-        vio = [v for v in vio if v["replay"].get("level") in (inp["level"], None)]
+    if level is not None:
+        vio = [v for v in vio if v["replay"].get("level") in (level, None)]
     return vio
+
+
+def shrink_all(ctx, vio, seconds_each=3.0, max_sigs=5):
+    by = {}
+    for v in vio:
+        tr = (v.get("replay") or {}).get("training")
+        if tr is None:
+            continue
+        if v["sig"] not in by or len(tr["passwords"]) < len(by[v["sig"]]["replay"]["training"]["passwords"]):
+            by[v["sig"]] = v
+    small = {"cap": 3000, "per_level": 0.2, "per_model": 0.6}
+    front = []
+    for sig, v in list(by.items())[:max_sigs]:
+        mk = v["replay"].get("max_keyspace", 10)
+
+        def still(c, sig=sig, mk=mk):
+            return any(x["sig"] == sig for x in check_one(c, None, mk, small))
+        cfg2 = ol.shrink_training(v["replay"]["training"], still, seconds_each)
+        hits = [x for x in check_one(cfg2, None, mk, small) if x["sig"] == sig]
+        front.append(hits[0] if hits else v)
+    return front + vio
+
+
+def replay(ctx, data):
+    inp = data.get("input") or {}
+    if "training" not in inp:
+        return []
+    return check_one(inp["training"], inp.get("level"), inp.get("max_keyspace", 10),
+                     {"cap": 200000, "per_level": 20.0, "per_model": 60.0})
